@@ -77,7 +77,26 @@ func TestC09Aggregate(t *testing.T) {
 		var got []core.SignedDataSet
 		for i := 0; i < 2; i++ {
 			agg.Subscribe(func(_ context.Context, _ core.Duty, set core.SignedDataSet) error {
-				got = append(got, set)
+				// what this subscriber was handed (a private snapshot, judged below) ...
+				snap := core.SignedDataSet{}
+				for pk, v := range set {
+					c, err := v.Clone()
+					if err != nil {
+						panic("HARNESS-ERROR: clone: " + err.Error())
+					}
+					snap[pk] = c
+				}
+				got = append(got, snap)
+				// ... and then it does with its own copy what it likes: the next subscriber must still be
+				// handed the verified aggregate
+				for pk, v := range set {
+					valgen.Scribble(&v)
+					set[pk] = v
+				}
+				for pk := range set {
+					delete(set, pk)
+					break
+				}
 				return nil
 			})
 		}
